@@ -132,3 +132,5 @@ func vhSprint(r interface{}) string {
 func vEach(f func()) { f() }
 
 func vDump(name string, x interface{}) {}
+
+func vHasParam(name string) bool { _, ok := vhParams[name]; return ok }
